@@ -288,7 +288,7 @@ let () =
         | ["P"; i] -> do_event (EPkt (z_of_int (int_of_string i), []))
         | ["Z"; i] -> Hashtbl.remove descs (int_of_string i); do_event (EDestroy (z_of_int (int_of_string i)))
         | ["PAR"] | ["ENDPAR"] -> ()
-        | "WD" :: _ | "SL" :: _ | "LB" :: _ | "LY" :: _ -> ()      (* watchdog, sleep, background feeder: harness-side only *)
+        | "WD" :: _ | "SL" :: _ | "LB" :: _ | "LY" :: _ | "PS" :: _ -> ()      (* watchdog, sleep, background feeder: harness-side only *)
         | "LC" :: i :: rest ->
           let i = int_of_string i in
           let ok = (match rest with [o] -> o <> "0" | _ -> true) in
